@@ -54,10 +54,13 @@
       result — both occur), `sig_capacity` (both, for two runs from Init with any capacities over any chunk schedule).
 
   NOT proved here:
-  * that `Covered` holds for parser output when a values object is supplied and fingerprinted headers are present:
-    `covered_bookkeeping` proves it for the list bookkeeping of ParseHeaders itself (any accepted headers, any array
-    size) and `covered_header_block` for ParseHeaders on every block of the C07 grammar under the generic treatment
-    (the scope of C07 `header_block`); the test below checks it on a message parsed with a values object;
+  (8) the coverage hypothesis discharged (`Sipsp.Proofs.SigCovered`): `covered_any_values(_new)`: after ParseHeaders
+      says OK — ANY values object, typed headers included, any capacity — the flag word covers the fingerprinted stored
+      types; `covered_after_parse`, `covered_after_history`, `covered_schedule_init`: `Covered m` after EVERY successful
+      ParseSIPMsg (one call, any history of Init / parse / Reset, any chunk schedule); hence
+      `factorisation_unconditional` and `same_view_same_signature_unconditional`: two successfully parsed requests with
+      the same method, Call-ID and From-tag bytes and first occurrences have the same signature — no side condition
+      on flag words or field positions left.
   (7) what the character-class functions compute (`Sipsp.Proofs.SigChars`): `strsig_eq`, `strsig_bits`,
       `strsig_class_bit`, `strsig_no_other_bit`: getStrCharsSig of any byte string = an explicit list function; bit
       3..12 is set iff the reserved byte `@ . : - * / + = _ |` of that bit occurs; bits 13–15 are the hex / base64 /
@@ -82,6 +85,7 @@
 import Sipsp.Proofs.SigSpec
 import Sipsp.Proofs.SigCompose
 import Sipsp.Proofs.SigChars
+import Sipsp.Proofs.SigCovered
 
 namespace Sipsp.C19
 open Sipsp
@@ -722,5 +726,36 @@ theorem viabr_no_branch : type_of% @Sipsp.scViaResult_none := @Sipsp.scViaResult
     signature and on the branch signature of the first Via have the same signature — whatever the bytes of
     Call-ID, From-tag and Via are, and whatever else differs -/
 theorem same_classes_same_signature : type_of% @Sipsp.getMsgSig_same_classes := @Sipsp.getMsgSig_same_classes
+
+/-! ### the coverage hypothesis discharged for every parser output (proved in `Sipsp.Proofs.SigCovered`) -/
+
+/-- **(1) `Covered` after ParseHeaders, ANY values object** (typed headers included; no size bound): the list object
+    satisfies the two invariants (`ScTail`: the slots after the current one are untouched and the current one has no
+    type while in its initial state; `SvCov`) — every new / reset list of any capacity does, and so does a list
+    returned by a suspended call; if ParseHeaders says OK the flag word covers every fingerprinted stored type -/
+theorem covered_any_values : type_of% @Sipsp.covered_any_values := @Sipsp.covered_any_values
+
+/-- … for a new list object of any capacity `k` -/
+theorem covered_any_values_new : type_of% @Sipsp.covered_any_values_new := @Sipsp.covered_any_values_new
+
+/-- **`Covered` after one successful ParseSIPMsg call** on an object satisfying the invariants (any buffer, offset,
+    flags; the call may complete a message suspended earlier) -/
+theorem covered_after_parse : type_of% @Sipsp.covered_parseSIPMsg := @Sipsp.covered_parseSIPMsg
+
+/-- **after ANY history of the object** (no size bound, no legitimacy hypothesis: the flag word and the stored types
+    are kept consistent by every call) -/
+theorem covered_after_history : type_of% @Sipsp.covered_after_history := @Sipsp.covered_after_history
+
+/-- **every chunk schedule from Init that ends with OK** -/
+theorem covered_schedule_init : type_of% @Sipsp.covered_schedule_init := @Sipsp.covered_schedule_init
+
+/-- **factorisation for every successfully parsed request** (C19 `factorisation` without `Covered`) -/
+theorem factorisation_unconditional : type_of% @Sipsp.svc_factorisation := @Sipsp.svc_factorisation
+
+/-- **two successfully parsed requests** (each the result of a successful call after any history — in particular of
+    any chunk schedule from Init, with any capacities) with the same method, the same Call-ID and From-tag bytes and
+    the same restricted view have the same signature and the same "Go would panic" flag: no side condition on the
+    flag words left -/
+theorem same_view_same_signature_unconditional : type_of% @Sipsp.svc_same_view_same_signature := @Sipsp.svc_same_view_same_signature
 
 end Sipsp.C19
